@@ -350,7 +350,7 @@ func (P *Prog) testWriteBeforeRead(r *Result) (bool, string) {
 				return
 			}
 			// must be a closure bound into a Test.Func field
-			if !P.closureStoredIntoTestFunc(fn, funcField) {
+			if !P.runsOnlyUnderTestFunc(fn, funcField, 0) {
 				okAll = false
 				details = append(details, fmt.Sprintf("%s (%s): reads SchemaCtx.Test but is not a closure stored into Test.Func", fname(fn), P.ipos(in)))
 			}
@@ -384,6 +384,46 @@ func (P *Prog) closureStoredIntoTestFunc(fn *ssa.Function, funcField *types.Var)
 		}
 	})
 	return ok
+}
+
+// runsOnlyUnderTestFunc: fn is a closure stored into Test.Func, or an
+// unexported helper that is only ever called (statically, never taken as a
+// value) from such closures or from other such helpers: whenever it runs, the
+// test loop has stored ctx.Test just before.
+func (P *Prog) runsOnlyUnderTestFunc(fn *ssa.Function, funcField *types.Var, depth int) bool {
+	if P.closureStoredIntoTestFunc(fn, funcField) {
+		return true
+	}
+	if depth > 3 || fn.Parent() != nil || isExportedAPI(fn) {
+		return false
+	}
+	nSites := 0
+	ok := true
+	for _, caller := range P.Funcs {
+		eachInstr(caller, func(_ *ssa.BasicBlock, _ int, in ssa.Instruction) {
+			if !ok {
+				return
+			}
+			if ci := callOf(in); ci != nil && ci.static == fn {
+				if _, isCall := in.(*ssa.Call); !isCall {
+					ok = false // go / defer: runs outside the test call
+					return
+				}
+				nSites++
+				if !P.runsOnlyUnderTestFunc(caller, funcField, depth+1) {
+					ok = false
+				}
+				return
+			}
+			var ops []*ssa.Value
+			for _, op := range in.Operands(ops) {
+				if f, isF := (*op).(*ssa.Function); isF && f == fn {
+					ok = false // taken as a value
+				}
+			}
+		})
+	}
+	return ok && nSites > 0
 }
 
 // ---------- release ----------
